@@ -25,6 +25,7 @@ def cases(tier, seed):
     n = 80 if tier == "quick" else 800
     for i in range(n):
         out.append({"name": "poll.model/%d" % i, "kind": "gen", "idx": i})
+    out.append({"name": "poll.cancel-table", "kind": "ctable"})
     cap = 22 if tier == "quick" else None
     for victim, trig in (("worker", "complete"), ("worker", "notify"), ("worker", "timer"), ("client", "complete"),
                          ("client", "cancel"), ("client", "notify")):
@@ -466,7 +467,48 @@ class PScenario(object):
             res.key("sweep", self.case["name"], info.get("site"))
 
 
+def run_ctable(case, res):
+    """cancel() at each stage (delegate pending / polling / resolved) x cancel function behaviour."""
+    for behaviour in (True, False, "raise"):
+        for stage in ("pending", "polling", "resolved"):
+            begin("vt")
+            ctx = Ctx()
+            try:
+                w = PW(ctx, 5.0, [[None, None, "v"]], {0: behaviour})
+                w.submit()
+                if stage != "pending":
+                    w.complete(0)
+                    instr.advance(0.25)
+                if stage == "resolved":
+                    instr.advance(12.0)
+                n_before = len(w.cancel_fn.calls)
+                w.cancel(0)
+                instr.advance(12.0)
+                res.execs += 1
+                check_common(res)
+                label = "cancel-table cancel_fn=%s stage=%s" % (behaviour, stage)
+                r = w.futs[0]["cancels"][-1][2] if w.futs[0]["cancels"] else None
+                consulted = len(w.cancel_fn.calls) - n_before
+                if stage == "polling" and consulted != 1:
+                    res.violation("cancel-fn/not-consulted", "%s: cancel function called %d times" % (label, consulted))
+                if stage != "polling" and consulted:
+                    res.violation("cancel-fn/not-polling", "%s: cancel function consulted outside the polling stage" % label)
+                if stage == "polling" and behaviour is not True:
+                    if r is not False or w.futs[0]["fut"].cancelled():
+                        res.violation("cancel-fn/veto-ignored", "%s: cancel() returned %r, future cancelled=%s" % (label, r, w.futs[0]["fut"].cancelled()))
+                    elif outcome(w.futs[0]["fut"])[0] != "value":
+                        res.violation("outcome/pending", "%s: vetoed future did not go on to resolve by polling: %s" % (label, outcome_repr(outcome(w.futs[0]["fut"]))))
+                if stage == "polling" and behaviour is True and r is not True:
+                    res.violation("cancel-fn/consent-ignored", "%s: cancel() returned %r" % (label, r))
+                w.judge(res, label)
+                res.key("ctable", behaviour, stage)
+            finally:
+                end(ctx)
+
+
 def run_case(case, res):
+    if case["kind"] == "ctable":
+        return run_ctable(case, res)
     if case["kind"] == "gen":
         run_gen(case, res)
     else:
